@@ -31,25 +31,27 @@ SYMS == {"empty",        \* 334 with an empty challenge: (re)start, the client s
          "staleFinal",   \* the valid v= of an earlier, abandoned exchange of this connection
          "keyedFinal",   \* v= with the right key over the messages really exchanged, whatever the server-first was
          "truncFinal",   \* v= followed by a proper prefix of the valid signature
+         "zeroKeyFinal", \* v= over the messages really exchanged, computed with an empty (all-zero) key
          "bareV",        \* "v=" alone
          "junk",         \* 334 with bytes that are neither r=... nor v=...
          "ok235", "fail535"}
 
 (* ---- observer over wire events: srv(sym, firstValid, finalValid), cli(kind), ret(ok) ---- *)
-ObsInit == [gotFirst |-> FALSE, verified |-> FALSE, started |-> FALSE, viol |-> {}, acks |-> 0, firsts |-> 0]
+ObsInit == [gotFirst |-> FALSE, verified |-> FALSE, lastValid |-> FALSE, started |-> FALSE, viol |-> {}, acks |-> 0, firsts |-> 0]
 Fl(name, ok) == IF ok THEN {} ELSE {name}
 
 SaslObserve(o, e) ==
   CASE e.ev = "cli" ->
-         IF e.kind = "first" THEN [o EXCEPT !.started = TRUE, !.gotFirst = FALSE, !.verified = FALSE, !.firsts = @ + 1]
-         ELSE IF e.kind = "ack"   \* the empty response that acknowledges a server-final
-              THEN [o EXCEPT !.acks = @ + 1, !.viol = @ \cup Fl("C15_AckOnlyValidFinal", o.verified)]
+         IF e.kind = "first" THEN [o EXCEPT !.started = TRUE, !.gotFirst = FALSE, !.verified = FALSE, !.lastValid = FALSE, !.firsts = @ + 1]
+         ELSE IF e.kind = "ack"   \* the empty response that acknowledges a server-final: the message it answers is the valid one
+              THEN [o EXCEPT !.acks = @ + 1, !.viol = @ \cup Fl("C15_AckOnlyValidFinal", o.verified /\ o.lastValid)]
          ELSE o
     [] e.ev = "srv" ->
          \* validity is a fact about the bytes sent (computed by the reference implementation):
          \* firstValid = extends the nonce of the latest client-first; finalValid = right key, this exchange
          [o EXCEPT !.gotFirst = IF e.firstValid THEN TRUE ELSE @,
-                   !.verified = IF e.finalValid /\ o.gotFirst THEN TRUE ELSE @]
+                   !.verified = IF e.finalValid /\ o.gotFirst THEN TRUE ELSE @,
+                   !.lastValid = e.finalValid /\ o.gotFirst]
     [] e.ev = "ret" ->
          [o EXCEPT !.viol = @ \cup Fl("C15_SuccessOnlyAfterVerifiedFinal", e.ok => (o.gotFirst /\ o.verified))]
     [] OTHER -> o
